@@ -1,4 +1,200 @@
 import LasioModel.Basic
-/- NumLit model (to be filled in) -/
+import LasioModel.Generated
+/-
+Model of `lasio.reader.SectionParser.num / metadata / params / curves / strip_brackets`
+(reader.py, class SectionParser) — how a header value text becomes an int, a float or stays a string.
+
+What the code does (validated against the interpreter by harness/props/c08.py on every run):
+  1. `re.sub(r"(\d),(\d)", r"\1.\2", x)`       (defaults.READ_SUBS["comma-decimal-mark"]; `\d` is the
+     UNICODE decimal-digit class there, the pattern is not compiled with re.ASCII; non-overlapping, left to right)
+  2. guard: `numeric_literal_regex.fullmatch(x.strip())` with `[+-]?(\d+\.?\d*|\.\d+)([eE][+-]?\d+)?`, re.ASCII;
+     no match -> the original text is returned
+  3. `np.int64(x)`  (= Python `int(x)`: surrounding white space accepted EXCEPT the four ASCII separators
+     U+001C..U+001F which `str.strip` removes but `int`/`float` refuse; at most `sys.get_int_max_str_digits()`
+     = 4300 digits, longer -> ValueError; outside int64 -> OverflowError); on any exception
+  4. `np.float64(x)` (= Python `float(x)`, correctly rounded `strtod`, same white-space rule); not finite -> original text.
+
+A float is carried as the exact decimal value `(-1)^neg * mant * 10^exp10` the literal denotes; the binary rounding
+done by `strtod` is not modelled (trusted).  The finiteness test is exact: round-to-nearest-even of a decimal value
+overflows binary64 iff |value| >= 2^1024 - 2^970.
+-/
 namespace Lasio
+
+inductive NumVal
+  | int (i : Int)
+  | flt (neg : Bool) (mant : Nat) (exp10 : Int)
+  | str (s : Str)
+  deriving DecidableEq, Repr
+
+/-! ### the comma substitution -/
+
+/-- code points of the digit ZERO of every Unicode 15.0 `Nd` block (each block is ten consecutive code points);
+this is the class `\d` of Python 3.12 `re` on `str` patterns (compared with `re` over all code points by the harness) -/
+def uniDigitZeros : List Nat := [
+  0x30, 0x660, 0x6f0, 0x7c0, 0x966, 0x9e6, 0xa66, 0xae6, 0xb66, 0xbe6, 0xc66, 0xce6, 0xd66, 0xde6, 0xe50, 0xed0, 0xf20,
+  0x1040, 0x1090, 0x17e0, 0x1810, 0x1946, 0x19d0, 0x1a80, 0x1a90, 0x1b50, 0x1bb0, 0x1c40, 0x1c50, 0xa620, 0xa8d0, 0xa900,
+  0xa9d0, 0xa9f0, 0xaa50, 0xabf0, 0xff10, 0x104a0, 0x10d30, 0x11066, 0x110f0, 0x11136, 0x111d0, 0x112f0, 0x11450, 0x114d0,
+  0x11650, 0x116c0, 0x11730, 0x118e0, 0x11950, 0x11c50, 0x11d50, 0x11da0, 0x11f50, 0x16a60, 0x16ac0, 0x16b50, 0x1d7ce,
+  0x1d7d8, 0x1d7e2, 0x1d7ec, 0x1d7f6, 0x1e140, 0x1e2f0, 0x1e4f0, 0x1e950, 0x1fbf0]
+
+/-- regex `\d` without re.ASCII -/
+def isUniDigit (c : Char) : Bool := uniDigitZeros.any (fun z => z ≤ c.toNat && c.toNat < z + 10)
+
+/-- `re.sub(r"(D),(D)", r"\1.\2", s)` for a digit class `D`: scan left to right; where digit , digit starts, emit
+digit . digit and continue AFTER the second digit (matches do not overlap), otherwise copy one character. -/
+def commaSubWith (isD : Char → Bool) : Str → Str
+  | [] => []
+  | [a] => [a]
+  | [a, c] => [a, c]
+  | a :: c :: b :: rest =>
+    if isD a && c == ',' && isD b then a :: '.' :: b :: commaSubWith isD rest
+    else a :: commaSubWith isD (c :: b :: rest)
+
+/-- `re.sub(READ_SUBS["comma-decimal-mark"])` -/
+def commaSub (s : Str) : Str := commaSubWith isUniDigit s
+
+/-! ### the plain-decimal guard, as a parser -/
+
+inductive Sign
+  | none | plus | minus
+  deriving DecidableEq, Repr
+
+/-- syntax tree of `[+-]?(\d+\.?\d*|\.\d+)([eE][+-]?\d+)?` : sign, integer digits, is there a '.', fraction digits,
+exponent (marker character, sign, digits) -/
+structure Lit where
+  sign : Sign
+  ip : Str
+  dot : Bool
+  fp : Str
+  exp : Option (Char × Sign × Str)
+  deriving DecidableEq, Repr
+
+def takeSign : Str → Sign × Str
+  | [] => (.none, [])
+  | c :: t => if c = '+' then (.plus, t) else if c = '-' then (.minus, t) else (.none, c :: t)
+
+/-- `([eE][+-]?\d+)?` up to the end of the text -/
+def parseExp : Str → Option (Option (Char × Sign × Str))
+  | [] => some none
+  | c :: t =>
+    if c = 'e' ∨ c = 'E' then
+      if (takeSign t).2 ≠ [] ∧ (takeSign t).2.all isDigit = true then some (some (c, (takeSign t).1, (takeSign t).2))
+      else none
+    else none
+
+/-- full match of the guard regex (ASCII digits) -/
+def parseDec (s : Str) : Option Lit :=
+  let sg := (takeSign s).1
+  let r := (takeSign s).2
+  let ip := r.takeWhile isDigit
+  match r.dropWhile isDigit with
+  | c :: r2 =>
+    if c = '.' then
+      let fp := r2.takeWhile isDigit
+      if ip = [] ∧ fp = [] then none
+      else (parseExp (r2.dropWhile isDigit)).map (fun e => ⟨sg, ip, true, fp, e⟩)
+    else if ip = [] then none
+    else (parseExp (c :: r2)).map (fun e => ⟨sg, ip, false, [], e⟩)
+  | [] => if ip = [] then none else some ⟨sg, ip, false, [], none⟩
+
+/-- `numeric_literal_regex.fullmatch(s) is not None` -/
+def isPlainDec (s : Str) : Bool := (parseDec s).isSome
+
+/-! ### values -/
+
+/-- value of a string of ASCII digits (Horner) -/
+def digitsVal (s : Str) : Nat := s.foldl (fun a c => 10 * a + (c.toNat - 48)) 0
+
+def Sign.apply : Sign → Nat → Int
+  | .minus, n => - (n : Int)
+  | _, n => (n : Int)
+
+/-- the literal is `[+-]?\d+` (the only texts `int()` accepts among plain literals) -/
+def Lit.isIntLit (l : Lit) : Bool := !l.dot && l.exp.isNone
+def Lit.intVal (l : Lit) : Int := l.sign.apply (digitsVal l.ip)
+def Lit.neg (l : Lit) : Bool := l.sign == .minus
+/-- all significant digits, the decimal point removed -/
+def Lit.mant (l : Lit) : Nat := digitsVal (l.ip ++ l.fp)
+def Lit.expVal (l : Lit) : Int :=
+  match l.exp with
+  | none => 0
+  | some (_, sg, ds) => sg.apply (digitsVal ds)
+/-- the literal denotes `mant * 10 ^ exp10` -/
+def Lit.exp10 (l : Lit) : Int := l.expVal - (l.fp.length : Int)
+
+/-- `sys.get_int_max_str_digits()` (CPython default): `int()` of a longer digit string raises ValueError -/
+def intMaxStrDigits : Nat := 4300
+
+def inInt64 (v : Int) : Bool := decide (-(2 : Int) ^ 63 ≤ v) && decide (v ≤ (2 : Int) ^ 63 - 1)
+
+/-- smallest magnitude that round-to-nearest-even sends to infinity in binary64 -/
+def overflowThreshold : Nat := 2 ^ 1024 - 2 ^ 970
+
+/-- does `mant * 10 ^ e` round to a finite binary64, given `mant < 10 ^ nd` (`nd` = number of digit characters).
+The shortcuts (`e > 310`, `-e ≥ nd`) keep huge exponents such as `1e999999999` computable; they are proved equal to
+the plain comparison `mant * 10^e < overflowThreshold` in LasioProofs. -/
+def finiteDec (nd mant : Nat) (e : Int) : Bool :=
+  if mant = 0 then true
+  else match e with
+    | .ofNat k => if k > 310 then false else decide (mant * 10 ^ k < overflowThreshold)
+    | .negSucc k => if k + 1 ≥ nd then true else decide (mant < overflowThreshold * 10 ^ (k + 1))
+
+/-- white space accepted around a number by `int()` / `float()`: Python white space except U+001C..U+001F -/
+def isNumSpace (c : Char) : Bool := isPySpace c && !(0x1C ≤ c.toNat && c.toNat ≤ 0x1F)
+
+def numStrip (s : Str) : Str := ((s.dropWhile isNumSpace).reverse.dropWhile isNumSpace).reverse
+
+/-- `SectionParser.num(x)` for a `str` argument (default = the argument) -/
+def num (s : Str) : NumVal :=
+  let x := commaSub s
+  let t := strip x
+  match parseDec t with
+  | none => .str s
+  | some l =>
+    if numStrip x ≠ t then .str s
+    else if l.isIntLit = true ∧ l.ip.length ≤ intMaxStrDigits ∧ inInt64 l.intVal = true then .int l.intVal
+    else if finiteDec (l.ip.length + l.fp.length) l.mant l.exp10 = true then .flt l.neg l.mant l.exp10
+    else .str s
+
+/-! ### the three item constructors -/
+
+/-- `SectionParser.strip_brackets` -/
+def stripBrackets (x : Str) : Str :=
+  let s := strip x
+  match s with
+  | a :: b :: rest =>
+    let last := (b :: rest).getLast?
+    if (a = '[' ∧ last = some ']') ∨ (a = '(' ∧ last = some ')') then (b :: rest).dropLast else s
+  | _ => s
+
+/-- is the mnemonic exempt from conversion (`keys["name"].upper() in number_strings`) -/
+def isNumberString (name : Str) : Bool := (Generated.numberStrings.map String.toList).contains (upper name)
+
+/-- value stored by `SectionParser.metadata` (~Version, ~Well, custom sections), `value` being the field selected
+by the section's value/descr order -/
+def metadataValue (name value : Str) : NumVal :=
+  if isNumberString name then .str value else num value
+
+/-- value stored by `SectionParser.params` (~Parameter) -/
+def paramsValue (value : Str) : NumVal := num value
+
+/-- value stored by `SectionParser.curves` (~Curves): the API code text, never converted -/
+def curvesValue (value : Str) : NumVal := .str value
+
+structure ParsedItem where
+  name : Str
+  unit : Str
+  value : NumVal
+  descr : Str
+  deriving DecidableEq, Repr
+
+/-- `SectionParser.metadata(**keys)`; `descrFirst` = the order looked up for this mnemonic is "descr:value" -/
+def metadataItem (descrFirst : Bool) (name unit value descr : Str) : ParsedItem :=
+  let v := if descrFirst then descr else value
+  let d := if descrFirst then value else descr
+  ⟨name, stripBrackets unit, metadataValue name v, d⟩
+
+def paramsItem (name unit value descr : Str) : ParsedItem := ⟨name, stripBrackets unit, paramsValue value, descr⟩
+def curvesItem (name unit value descr : Str) : ParsedItem := ⟨name, stripBrackets unit, curvesValue value, descr⟩
+
 end Lasio
